@@ -178,8 +178,13 @@ def compile_item(it, base, tags=()):
     k = it["k"]
     out = []
 
+    only = it.get("only")  # reproducer files restrict an item to the named ops (families without register refs)
+
     def emit(stmt, label=None):
-        out.append((stmt, label if label is not None else (stmt[0] if stmt[0] != "let" else None)))
+        lab = label if label is not None else (stmt[0] if stmt[0] != "let" else None)
+        if only is not None and lab not in only:
+            return None
+        out.append((stmt, lab))
         return base + len(out) - 1
 
     if k == "div2":
